@@ -35,9 +35,11 @@ EXPECTED_ACTS = {
 #   sample_k    labels sampled per node at level full_depth (1 per node below that)
 #   max_depth   longest history walked (only while TLC expanded the state)
 #   p_ro        share of visited results whose read-only methods are compared with a new object
+#   tp_cap      below the first level, at most this many ordered / repeating index-tuple take_positions labels per
+#               node (every one of them is taken on every initial alignment)
 #   cs_cap      at most this many ConcatSlices labels per node (None = all the cfg's PairFamily offers)
-def _pol(full_depth, sample_k, max_depth, p_ro, cs_cap=None):
-    return dict(full_depth=full_depth, sample_k=sample_k, max_depth=max_depth, p_ro=p_ro, cs_cap=cs_cap)
+def _pol(full_depth, sample_k, max_depth, p_ro, cs_cap=None, tp_cap=4):
+    return dict(full_depth=full_depth, sample_k=sample_k, max_depth=max_depth, p_ro=p_ro, cs_cap=cs_cap, tp_cap=tp_cap)
 
 
 PLANS = {
